@@ -5,7 +5,7 @@ from ..runner import Op
 
 ID = "C16"
 KINDS = {"U": ["diffCount_comm", "diffCount_eq_zero_iff", "ber_exact", "stream_eq_oneshot", "partition_independent",
-               "order_independent", "history_refinement", "ber_bler_sandwich", "bler_reject"]}
+               "order_independent", "history_refinement", "ber_bler_sandwich", "bler_reject", "symCode_blocks"]}
 PARTIAL = ["exactness of compute() beyond 2^24 accumulated bits (float32 quotient) is outside the model; the tie compares the float with the exact fraction at 1e-6"]
 RULE = ("one line = one whole history (update/compute/reset/forward tokens) run on a fresh metric object; exhaustive short "
         "histories over a pool of batches + random long ones; non-trivial = the history contains an update with at least one differing element and a compute")
